@@ -853,6 +853,11 @@ func runC09(c *core.Ctx) {
 				fmt.Fprintf(&refs, "[MV%d] [text][mv%d] ", i, i)
 				fmt.Fprintf(&moved, "[mv%d]: /m%d 't%d'\n", i, i, i)
 			}
+			if k >= 2 && kk%2 == 0 {
+				// some of the document's own labels are defined a second time further down (the first definition counts):
+				// which one is "first" must not depend on how many definitions stand before them
+				fmt.Fprintf(&own, "\n[OWN0]: /second-definition-of-own0\n[own%d]: /second-definition 'x'\n[own%d]: /second-definition-of-the-last\n", k/3, k-1)
+			}
 			d := "intro\n\n" + own.String() + "\n" + refs.String() + "\n\n# end\n"
 			for si, sp := range specs {
 				if (kk+si)%2 == 0 {
